@@ -42,3 +42,5 @@ package clause
 //@ func buildExprs
 //@   tags C06
 //@   modifies region(builder)
+//@ iface Interface.Name(recv)
+//@   pure
